@@ -40,8 +40,24 @@ def span_case(draw):
     for _ in range(draw(st.integers(1, 14))):
         c = draw(st.integers(0, nctx - 1))
         n = lens[c]
-        kind = draw(st.integers(0, 5))
-        if kind == 0:
+        kind = draw(st.integers(0, 7))
+        if kind >= 6:
+            # aim at a *global* offset next to a power of two (contexts are laid out one after the other, each followed by one
+            # position for its end of file; if that guess about the layout were wrong the aim would merely be off)
+            G = (1 << draw(st.sampled_from([38, 38, 38, 25, 32, 37, 39, 40]))) + draw(st.integers(-3, 2))
+            base = 0
+            hit = None
+            for ci, ln in enumerate(lens):
+                if base <= G <= base + ln:
+                    hit = (ci, G - base)
+                base += ln + 1
+            if hit is not None:
+                c, s = hit
+                n = lens[c]
+                e = min(n, s + draw(st.sampled_from([0, 0, 1, 3, (1 << 25) - 1, 1 << 25])))
+            else:
+                s = e = n
+        elif kind == 0:
             s = e = draw(st.sampled_from([0, n]))
         elif kind == 1:
             s = draw(st.integers(0, n))
